@@ -398,24 +398,25 @@ theorem walk_kernel_expressions : walkArithS = stdWalk ∧ walkArithR = stdWalk 
   ⟨walkArithS_std, walkArithR_std⟩
 
 /-- one pass through the loop body of `_twin_surrogates_s` in the kernel's `int k` is `next`, for
-every table (well-formed or not), every state, every cursor, every stream of non-negative draws —
-error cases included (`none` on both sides) -/
+every table (well-formed or not), every state, every cursor, every stream of draws in [0,1) —
+IndexError cases included (`none` on both sides); in particular the restart loop `while True`
+(modelled with 64 rounds of fuel) always ends in its first round -/
 theorem walk_kernel_step_is_next (N : Nat) (tw : List (List Nat)) (u : Nat → Rat)
-    (hu : ∀ c, 0 ≤ u c) (k c : Nat) :
+    (hu : ∀ c, 0 ≤ u c ∧ u c < 1) (k c : Nat) :
     nextK walkArithS (N : Int) tw u (k : Int) c
       = (next N tw (floorPick u) k c).map (fun p => ((p.1 : Int), p.2)) := by
   rw [walkArithS_std]; exact nextK_std N tw u hu k c
 
 /-- `_twin_surrogates_s` (loop over the series, `while j < N` with its counter `j`, loads, stores,
 restart loop) on the source's expressions = the abstract `walkRows` -/
-theorem walk_kernel_s_is_walk (N : Nat) (u : Nat → Rat) (hu : ∀ c, 0 ≤ u c)
+theorem walk_kernel_s_is_walk (N : Nat) (u : Nat → Rat) (hu : ∀ c, 0 ≤ u c ∧ u c < 1)
     (tws : List (List (List Nat))) (c : Nat) :
     walkKernelS N u tws c = (walkRows N (floorPick u) tws c).map castRows :=
   walkKernelS_eq N u hu tws c
 
 /-- `_twin_surrogates_r` on the source's expressions = the abstract `walkRep` -/
 theorem walk_kernel_r_is_walk (N : Nat) (tw : List (List Nat)) (u : Nat → Rat)
-    (hu : ∀ c, 0 ≤ u c) (ns c : Nat) :
+    (hu : ∀ c, 0 ≤ u c ∧ u c < 1) (ns c : Nat) :
     walkKernelR N tw u ns c = (walkRep N tw (floorPick u) ns c).map castRows :=
   walkKernelR_eq N tw u hu ns c
 
@@ -428,7 +429,7 @@ theorem walk_kernel_s_states_original_and_successor {N : Nat} (u : Nat → Rat)
       List.Forall₂ (fun l tw => l.length = N ∧ (∀ i ∈ l, i < N) ∧
         (∀ i a b, l[i]? = some a → l[i+1]? = some b → Succ N tw a b)) ls tws := by
   obtain ⟨ls, c', h, hs⟩ := walk_states_original_and_successor u hu tws hw c
-  exact ⟨ls, c', by rw [walk_kernel_s_is_walk N u (fun c => (hu c).1), h]; rfl, hs⟩
+  exact ⟨ls, c', by rw [walk_kernel_s_is_walk N u hu, h]; rfl, hs⟩
 
 theorem walk_kernel_r_states_original_and_successor {N : Nat} {tw : List (List Nat)}
     (u : Nat → Rat) (hu : ∀ c, 0 ≤ u c ∧ u c < 1) (hw : WfTwins N tw) (ns c : Nat) :
@@ -437,7 +438,12 @@ theorem walk_kernel_r_states_original_and_successor {N : Nat} {tw : List (List N
       ∀ l ∈ ls, l.length = N ∧ (∀ i ∈ l, i < N) ∧
         (∀ i a b, l[i]? = some a → l[i+1]? = some b → Succ N tw a b) := by
   obtain ⟨ls, c', h, hl, hs⟩ := rp_walk_states_original_and_successor u hu hw ns c
-  exact ⟨ls, c', by rw [walk_kernel_r_is_walk N tw u (fun c => (hu c).1), h]; rfl, hl, hs⟩
+  exact ⟨ls, c', by rw [walk_kernel_r_is_walk N tw u hu, h]; rfl, hl, hs⟩
+
+/-- the restart loop is really a loop in the model: a draw outside [0,1) (`u = 1`, so `new_k = N = k`)
+is rejected and the second round's draw is taken -/
+example : restartK stdWalk 2 (fun c => [(1 : Rat), 0].getD c 0) 2 restartFuel 0 = some (0, 2) := by
+  decide +kernel
 
 /-- the loop-level kernel on a table with a twin pair: jump to the future of a twin (2 → 0+1),
 move on, restart at the end — the same walk as the abstract example at the end of this file -/
@@ -689,7 +695,7 @@ theorem twin_surrogates_source_level (bits : Nat) (hb : 2 ≤ bits) (u : Nat →
     (g : Nat → Nat → Bool) (gn : Nat → Int) :
     ∃ out, twinSurrogatesSrc bits data dim delay thr md u g gn = some out ∧
       List.Forall₂ (RowSpec (n - (dim - 1) * delay) dim delay thr md) out data := by
-  rw [twinSurrogatesSrc_eq bits data dim delay thr md u (fun c => (hu c).1) g gn]
+  rw [twinSurrogatesSrc_eq bits data dim delay thr md u hu g gn]
   exact twin_surrogates_loop_level_machine bits hb u hu n dim delay thr md hd hfit hw data hrows g gn
 
 /-- **`RecurrencePlot.twin_surrogates` on the source's expressions throughout** (subscripts of
@@ -700,7 +706,7 @@ theorem rp_twin_surrogates_source_level (u : Nat → Rat) (hu : ∀ c, 0 ≤ u c
     (hS : Square R.length R) :
     ∃ out, rpTwinSurrogatesSrc md ns R emb u = some out ∧ out.length = ns ∧
       ∀ traj ∈ out, TrajSpec emb.length md R emb traj := by
-  rw [rpTwinSurrogatesSrc_eq md ns R emb hS u (fun c => (hu c).1)]
+  rw [rpTwinSurrogatesSrc_eq md ns R emb hS u hu]
   exact rp_twin_surrogates_method u hu md ns R emb hR
 
 example : rpTwinSurrogates 0 1 [[true, false, true], [false, true, false], [true, false, true]]
